@@ -15,6 +15,9 @@ FINISH = dict(
         "Lean compiler for acmed_model",
         "py/gen.py extractor of the back-off table (Gen/Consts.lean)",
         "in-crate probe op `schedule` calling the real Certificate::schedule_renewal on files made by vhelper",
+        "in-crate probe op `c06_cfg_schedule` (child probe of main_event_loop.rs): MainEventLoop::new on a generated file, "
+        "then schedule_renewal of every certificate; py/ext/c06place.py's reading of the configuration levels "
+        "(certificate, else endpoint, else [global], else 30d / 0 as documented in acmed.toml(5))",
         "configured Unicode / mixed-case names (py/ext/idnagen.py pool: every script with case, capital sigma contexts, "
         "U+0130, Kelvin sign, decomposed spellings; configured as written): the certificate carries the MODEL's A-label "
         "(Model.Lower / Model.Idna; lower-casing tables regenerated from the compiled std over every scalar value), each "
@@ -36,7 +39,13 @@ FINISH = dict(
          "file never leads to a request and does not stop a healthy certificate; the same with a NEIGHBOUR on the endpoint "
          "(same account or its own) that waits 60 days for its date: a certificate without file is requested at once, one "
          "becoming due (short / installed-short) when due, one whose file is removed while the daemon runs at the "
-         "evaluation that follows; a request for the neighbour is judged as well.",
+         "evaluation that follows; a request for the neighbour is judged as well. py/ext/c06place.py: WHERE the two "
+         "periods are set — configuration files through the real start-up (config::from_file + MainEventLoop::new) and "
+         "the real schedule_renewal of each certificate: all 2^3 presence patterns over [global] / endpoint / certificate "
+         "x every assignment of distinct values to the levels present x remaining life below / between / above the "
+         "candidate values (the default included), the same for the jitter, both at once, no file on disk; same judge, "
+         "delay / jitter = the most specific configured value; and loop scenarios (short, installed-short, fresh, "
+         "neighbours) with placed periods.",
 )
 
 NS = 10 ** 9
@@ -169,6 +178,10 @@ def run(ctx):
         # chains, SAN shapes, huge delays, file naming + decoys, and the daemon's loop (py/ext/c06x.py)
         from ext import c06x
         c06x.extend(ctx, helper, root)
+        # the two periods set at [global] / endpoint / certificate level of a configuration FILE that goes through the
+        # real start-up (py/ext/c06place.py; the loop scenarios of c06x.py carry the same dimension)
+        from ext import c06place
+        c06place.extend(ctx, helper, os.path.join(root, "place"))
         if not ctx.quick():
             # release profile on the overflow rows (the unrepaired code wrapped instead of panicking)
             rel = vlib.build_acmed(release=True)
@@ -267,6 +280,9 @@ def replay(ctx):
     if str(obj.get("part", "")).startswith("x:"):
         from ext import c06x
         return c06x.replay(ctx, obj)
+    if str(obj.get("part", "")).startswith("p:"):
+        from ext import c06place
+        return c06place.replay(ctx, obj)
     vlib.build_acmed()
     vlib.build_helper()
     helper = mockca.Helper()
